@@ -59,9 +59,14 @@ type c16Ev struct {
 }
 
 type c16Case struct {
-	Kind string  `json:"kind"` // bulk | chunk | periodical
-	Max  int     `json:"max"`  // bulk: task count; chunk: byte limit; periodical: task count of the custom container (0 = no threshold)
-	IvMs int     `json:"iv"`   // flush interval in milliseconds
+	Kind string `json:"kind"` // bulk | chunk | periodical
+	Max  int    `json:"max"`  // bulk: task count; chunk: byte limit; periodical: task count of the custom container (0 = no threshold)
+	IvMs int    `json:"iv"`   // flush interval in milliseconds (used when IvUs is 0)
+	// IvUs: flush interval in microseconds, 1 µs .. 10 s, including sub-millisecond values and
+	// values that are not multiples of 1 ms. The constructors document no minimum; time.NewTicker
+	// accepts every positive duration. All schedules, latencies and horizons of a case are
+	// multiples of the half interval, i.e. bounded in TICKS, so small intervals cost nothing.
+	IvUs int     `json:"ivus,omitempty"`
 	Ev   []c16Ev `json:"ev"`
 	Lat  []int   `json:"lat,omitempty"` // latency (half intervals) of the k-th callback, cyclic
 	// Q: before the final Wait the root stays passive for a few intervals and then
@@ -94,7 +99,7 @@ func (c c16Case) effective() c16Case {
 		}
 	}
 	if c.NoIv && c.Kind != "periodical" {
-		c.IvMs = c16DefaultIvMs
+		c.IvMs, c.IvUs = c16DefaultIvMs, 0
 	}
 	var ev []c16Ev
 	for _, e := range c.Ev {
@@ -122,8 +127,17 @@ func (ids c16IDs) String() string {
 	return fmt.Sprintf("%v...(%d tasks)...%v", []int(ids[:6]), len(ids), []int(ids[len(ids)-3:]))
 }
 
-func (c c16Case) interval() time.Duration { return time.Duration(c.IvMs) * time.Millisecond }
-func (c c16Case) unit() time.Duration     { return c.interval() / 2 }
+func (c c16Case) interval() time.Duration {
+	if c.IvUs > 0 {
+		return time.Duration(c.IvUs) * time.Microsecond
+	}
+	return time.Duration(c.IvMs) * time.Millisecond
+}
+
+// c16Intervals: the interval domain in microseconds.
+var c16Intervals = []int{1, 7, 250, 999, 1000, 1500, 10_000, 33_300, 50_000, 250_000, 1_000_000, 10_000_000}
+
+func (c c16Case) unit() time.Duration { return c.interval() / 2 }
 func (c c16Case) maxLat() int {
 	m := 0
 	for _, l := range c.Lat {
@@ -1020,7 +1034,7 @@ func c16GenKind(rt *rapid.T, c *c16Case) {
 func c16Gen(rt *rapid.T) c16Case {
 	c := c16Case{}
 	c16GenKind(rt, &c)
-	c.IvMs = rapid.SampledFrom([]int{10, 50, 250, 1000}).Draw(rt, "iv")
+	c.IvUs = rapid.SampledFrom(c16Intervals).Draw(rt, "ivus")
 	ng := rapid.IntRange(1, 4).Draw(rt, "ng")
 	n := rapid.IntRange(1, 24).Draw(rt, "nev")
 	for i := 0; i < n; i++ {
@@ -1061,7 +1075,7 @@ func c16Gen(rt *rapid.T) c16Case {
 func c16GenPar(rt *rapid.T) c16Case {
 	c := c16Case{}
 	c16GenKind(rt, &c)
-	c.IvMs = rapid.SampledFrom([]int{1, 1, 2}).Draw(rt, "iv")
+	c.IvUs = rapid.SampledFrom([]int{250, 999, 1000, 1000, 1500, 2000}).Draw(rt, "ivus") // real time
 	ng := rapid.IntRange(2, 6).Draw(rt, "ng")
 	n := rapid.IntRange(2, 60).Draw(rt, "nev")
 	idleAt := -1 // at most one idle phase of 12 intervals for the whole case, in one case of six
@@ -1089,13 +1103,25 @@ func c16GenPar(rt *rapid.T) c16Case {
 	return c
 }
 
+type c16qi struct {
+	q    bool
+	ivus int
+}
+
+func c16QI(ivus []int) (out []c16qi) {
+	for _, iv := range ivus {
+		out = append(out, c16qi{false, iv}, c16qi{true, iv})
+	}
+	return
+}
+
 // c16Enumerate: small-scope enumeration. Two adders, 1..maxAdds adds in total
 // (at most 3 per adder) at instants of the grid {0, I/2, I, 3I/2}; optionally one
 // Flush or Wait by adder 0 or by a third goroutine at a grid instant;
 // optionally an idle gap of 12 intervals before one of the adds (after the
 // first); bulk executor with the given maxTasks values; the given latency
 // patterns; with and without the tick-only quiesce.
-func c16Enumerate(maxAdds int, maxes []int, lats [][]int) func(yield func(c16Case) bool) {
+func c16Enumerate(maxAdds int, maxes []int, lats [][]int, ivus []int) func(yield func(c16Case) bool) {
 	return func(yield func(c16Case) bool) {
 		type add struct{ g, at int }
 		var adds []add
@@ -1125,8 +1151,9 @@ func c16Enumerate(maxAdds int, maxes []int, lats [][]int) func(yield func(c16Cas
 				for idle := 0; idle < n; idle++ { // 0: none; k: before add k
 					for _, mx := range maxes {
 						for _, lat := range lats {
-							for _, q := range []bool{false, true} {
-								c := c16Case{Kind: "bulk", Max: mx, IvMs: 10, Lat: lat, Q: q}
+							for _, qi := range c16QI(ivus) {
+								q := qi.q
+								c := c16Case{Kind: "bulk", Max: mx, IvUs: qi.ivus, Lat: lat, Q: q}
 								// merge adds and the extra op by instant (extra after the adds of its instant)
 								type item struct {
 									at int
@@ -1212,7 +1239,7 @@ func c16GenSeqOne(rt *rapid.T) c16Case {
 	default:
 		c.Max = rapid.IntRange(0, 3).Draw(rt, "max")
 	}
-	c.IvMs = rapid.SampledFrom([]int{10, 50, 250, 5000}).Draw(rt, "iv")
+	c.IvUs = rapid.SampledFrom(c16Intervals).Draw(rt, "ivus")
 	eff := c.effective()
 	ng := rapid.IntRange(1, 3).Draw(rt, "ng")
 	n := rapid.IntRange(1, 10).Draw(rt, "nev")
@@ -1399,11 +1426,11 @@ func TestVerif_C16_random(t *testing.T) {
 
 func TestVerif_C16_smallscope(t *testing.T) {
 	defer runtime.GOMAXPROCS(runtime.GOMAXPROCS(1))
-	maxAdds, maxes, lats := 2, []int{2}, [][]int{{3}}
+	maxAdds, maxes, lats, ivus := 2, []int{2}, [][]int{{3}}, []int{10_000, 999}
 	if kit.Thorough() {
 		maxAdds, maxes, lats = 4, []int{1, 2}, [][]int{nil, {3}}
 	}
-	kit.Enumerate(t, "C16", "exec-small-scope", c16Enumerate(maxAdds, maxes, lats),
+	kit.Enumerate(t, "C16", "exec-small-scope", c16Enumerate(maxAdds, maxes, lats, ivus),
 		c16Repeat(func(c c16Case) kit.Verdict { return c16Interp(t, c) }))
 }
 
